@@ -3,7 +3,7 @@
    which conditions. *)
 From Coq Require Import String.
 From Gen Require Import Skeletons.
-From GW Require Import VerifiedMerge.
+From GW Require Import VerifiedMerge VerifiedDecisions.
 
 Lemma merge_mergeInterfaces_skeleton : gen_merge_mergeInterfaces = verified_merge_mergeInterfaces.
 Proof. reflexivity. Qed.
@@ -69,4 +69,19 @@ Lemma merge_mergeArgumentDefinitions_skeleton : gen_merge_mergeArgumentDefinitio
 Proof. reflexivity. Qed.
 
 Lemma merge_mergeSchemas_skeleton : gen_merge_mergeSchemas = verified_merge_mergeSchemas.
+Proof. reflexivity. Qed.
+
+Lemma gateway_fieldURLs_skeleton : gen_gateway_fieldURLs = verified_gateway_fieldURLs.
+Proof. reflexivity. Qed.
+
+Lemma gateway_URLFor_skeleton : gen_gateway_URLFor = verified_gateway_URLFor.
+Proof. reflexivity. Qed.
+
+Lemma gateway_Concat_skeleton : gen_gateway_Concat = verified_gateway_Concat.
+Proof. reflexivity. Qed.
+
+Lemma gateway_RegisterURL_skeleton : gen_gateway_RegisterURL = verified_gateway_RegisterURL.
+Proof. reflexivity. Qed.
+
+Lemma gateway_keyFor_skeleton : gen_gateway_keyFor = verified_gateway_keyFor.
 Proof. reflexivity. Qed.
